@@ -1010,6 +1010,7 @@ def r8_fresh_parse(run: Run, src):
 
 
 def run(run: Run):
+    from .common import cached_guard as _cached_guard
     src = get_source()
     g = get_grammar(src)
     run.rule('C02.R1', 'regex group <-> Cell field agreement for the three reference terminals')
@@ -1017,10 +1018,10 @@ def run(run: Run):
     run.rule('C02.R3', 'strict sheet-title resolution')
     run.rule('C02.R4', 'every branch of get_matrix returns rows of cells')
     run.rule('C02.R5', 'the extent of an area depends on coordinates and sizes only')
-    run.guard('C02.R1', r1_any, run, src, g)
-    run.guard('C02.R2', r2, run, src)
-    run.guard('C02.R3', r3_both, run, src)
-    run.guard('C02.R4', r4_r5, run, src)
+    _cached_guard(run, 'C02.R1', r1_any, src, g)
+    _cached_guard(run, 'C02.R2', r2, src)
+    _cached_guard(run, 'C02.R3', r3_both, src)
+    _cached_guard(run, 'C02.R4', r4_r5, src)
     # a title resolves to the right sheet only if the title list is index-aligned with the data: shared with C18.R2
     from .common import borrow
     from . import c18
@@ -1042,7 +1043,7 @@ def run(run: Run):
     borrow(run, 'C02.R7', c18.r1_any, src)
     run.floor('C02.R7', 5)
     run.rule('C02.R8', 'the tree a cell is translated from is lexed and parsed for that very cell (in_cell = the cell)')
-    run.guard('C02.R8', r8_fresh_parse, run, src)
+    _cached_guard(run, 'C02.R8', r8_fresh_parse, src)
     run.floor('C02.R8', 1)
     run.floor('C02.R1', 24)
     run.floor('C02.R2', 14)
